@@ -55,6 +55,9 @@ pub enum Class {
     BlockYieldsOtherBox,
     ShadowedBox,
     ListBuiltInBlock,
+    MainClosureInplaceUsesCapturedClosure,
+    TwoInplaceLambdasSameClosureParam,
+    InplaceUsesClosureParam,
     // ---- known findings on the pinned tree (rate per dsp call in `rate()`)
     LocalCaptureBound,
     ReturnedBound,
@@ -90,7 +93,7 @@ pub enum Class {
     EscapingClosureCapturesLetBoundBox,
 }
 
-pub const STABLE: [Class; 34] = [
+pub const STABLE: [Class; 37] = [
     Class::LocalNoCapture,
     Class::InplaceCapturing,
     Class::GlobalClosureCalled,
@@ -125,6 +128,9 @@ pub const STABLE: [Class; 34] = [
     Class::BlockYieldsOtherBox,
     Class::ShadowedBox,
     Class::ListBuiltInBlock,
+    Class::MainClosureInplaceUsesCapturedClosure,
+    Class::TwoInplaceLambdasSameClosureParam,
+    Class::InplaceUsesClosureParam,
 ];
 /// Constructs that release a heap object twice (logged `invalid HeapIdx`) or use it after release
 /// (`BoxLoad: invalid heap index`) on the pinned tree. One scenario in twelve contains exactly one
@@ -199,6 +205,9 @@ impl Class {
             Class::HelperYieldsOtherBox => "helper-binding-a-box-and-returning-another-box",
             Class::ShadowedBox => "let-bound-box-shadowed-by-another-box",
             Class::ListBuiltInBlock => "list-built-from-let-bound-cells-inside-a-block",
+            Class::MainClosureInplaceUsesCapturedClosure => "closure-made-by-main-whose-in-place-lambda-uses-a-captured-closure",
+            Class::TwoInplaceLambdasSameClosureParam => "two-in-place-lambdas-using-the-same-closure-parameter",
+            Class::InplaceUsesClosureParam => "in-place-lambda-using-a-closure-parameter",
             Class::ClosureCapturingClosure => "local-closure-capturing-a-local-closure",
             Class::ClosureCapturingBox => "local-closure-capturing-a-local-box",
             Class::ReturnedClosureCapturingBox => "closure-returned-from-callee-capturing-a-boxed-argument",
@@ -424,6 +433,27 @@ impl Inst {
             Class::EscapingClosureCapturesLetBoundBox => (
                 format!("type rec Zl{i} = Zn{i} | Zc{i}(float, Zl{i})\n"),
                 format!("  let zf{i} = {{\n    let l = Zc{i}(now + {k}, Zn{i})\n    | | match l {{ Zn{i} => 0.0, Zc{i}(h, t) => h }}\n  }};\n  let r{i} = zf{i}();\n"),
+                format!("r{i}"),
+            ),
+            Class::MainClosureInplaceUsesCapturedClosure => (
+                format!(
+                    "fn wrp{i}(q){{\n  |x| x * q\n}}\nfn mkv{i}(g:(float)->float, gain:float){{\n  |x| {{ (|y| g(y) * gain)(x) }}\n}}\nlet osc{i} = wrp{i}({k})\nlet voice{i} = mkv{i}(osc{i}, 0.5)\n"
+                ),
+                format!("  let r{i} = voice{i}(now);\n"),
+                format!("r{i}"),
+            ),
+            Class::TwoInplaceLambdasSameClosureParam => (
+                format!(
+                    "fn mkh{i}(q){{\n  |x| x * q\n}}\nlet fh{i} = mkh{i}({k})\nfn twice{i}(h:(float)->float, x:float){{\n  (|a| h(a))(x) + (|b| h(b) * 0.5)(x)\n}}\n"
+                ),
+                format!("  let r{i} = twice{i}(fh{i}, now);\n"),
+                format!("r{i}"),
+            ),
+            Class::InplaceUsesClosureParam => (
+                format!(
+                    "fn mkh{i}(q){{\n  |x| x * q\n}}\nlet fh{i} = mkh{i}({k})\nfn once{i}(h:(float)->float, x:float){{\n  (|a| h(a) + 1.0)(x)\n}}\n"
+                ),
+                format!("  let r{i} = once{i}(fh{i}, now);\n"),
                 format!("r{i}"),
             ),
             Class::ListBuiltInBlock => (
